@@ -208,6 +208,13 @@ class Interp:
             return a if a == b else ("ifexp", c, a, b)
         if isinstance(e, ast.Subscript):
             base = self.ev(e.value, st)
+            if isinstance(e.slice, ast.Slice) and e.slice.step is not None:
+                lo = self.ev(e.slice.lower, st) if e.slice.lower is not None else None
+                hi = self.ev(e.slice.upper, st) if e.slice.upper is not None else None
+                stp = self.ev(e.slice.step, st)
+                if isinstance(base, (bytes, str)) and (lo is None or is_int(lo)) and (hi is None or is_int(hi)) and is_int(stp) and stp != 0:
+                    return base[lo:hi:stp]
+                return ("slice3", base, lo, hi, stp)
             if isinstance(e.slice, ast.Slice):
                 lo = self.ev(e.slice.lower, st) if e.slice.lower is not None else 0
                 hi = self.ev(e.slice.upper, st) if e.slice.upper is not None else None
@@ -236,6 +243,20 @@ class Interp:
             return ("list", tuple(self.ev(x, st) for x in e.elts))
         if isinstance(e, ast.Dict):
             if any(k is None for k in e.keys):
+                items, ok = [], True
+                for k, v in zip(e.keys, e.values):
+                    vv = self.ev(v, st)
+                    if k is None:
+                        if isinstance(vv, tuple) and vv and vv[0] == "dict":
+                            for kk, v2 in vv[1]:
+                                items = [kv for kv in items if kv[0] != kk] + [(kk, v2)]
+                        else:
+                            ok = False
+                    else:
+                        kk = self.ev(k, st)
+                        items = [kv for kv in items if kv[0] != kk] + [(kk, vv)]
+                if ok:
+                    return ("dict", tuple(items))
                 return ("dictx", tuple(self.ev(v, st) for v in e.values))
             return ("dict", tuple((self.ev(k, st), self.ev(v, st)) for k, v in zip(e.keys, e.values)))
         if isinstance(e, ast.JoinedStr):
@@ -393,6 +414,19 @@ class Interp:
         if f == ("name", "isinstance"):
             pass
         conc = lambda x: isinstance(x, (int, str, bytes, bool, type(None)))
+        # pure string predicates on constants (a constant pattern applied to a constant string is constant folding)
+        if f in (("attr", ("name", "re"), "match"), ("attr", ("name", "re"), "fullmatch"), ("attr", ("name", "re"), "search")) \
+                and len(args) == 2 and isinstance(args[0], str) and isinstance(args[1], str) and not kws:
+            import re as _re
+            try:
+                return True if getattr(_re, f[2])(args[0], args[1]) else None
+            except _re.error:
+                return UNK
+        if isinstance(f, tuple) and f[0] == "attr" and f[2] in ("endswith", "startswith") and isinstance(f[1], str) \
+                and len(args) == 1 and isinstance(args[0], (str, tuple)) and not kws:
+            a0 = args[0] if isinstance(args[0], str) else tuple(args[0][1]) if args[0][0] == "tuple" and all(isinstance(x, str) for x in args[0][1]) else None
+            if a0 is not None:
+                return getattr(f[1], f[2])(a0)
         if isinstance(f, tuple) and f[0] == "attr" and f[2] == "get" and isinstance(f[1], tuple) and f[1] and f[1][0] == "dict" \
                 and 1 <= len(args) <= 2 and conc(args[0]) and all(conc(k) for k, _ in f[1][1]):
             for k, v in f[1][1]:
@@ -719,6 +753,10 @@ def table_writes(p, is_table):
         base, key, val = e[1], e[2], e[3]
         if isinstance(base, tuple) and base and base[0] == "sub" and is_table(base[1]):
             entries.append((base[2], key, val))
+        elif isinstance(base, tuple) and base and base[0] == "call" and isinstance(base[1], tuple) and base[1][0] == "attr" \
+                and base[1][2] == "setdefault" and is_table(base[1][1]) and len(base[2]) == 2 and base[2][1] in (("dict", ()), ("call", ("name", "dict"), (), ())):
+            # table.setdefault(k1, {})[k2] = v : the bucket is created only when missing
+            entries.append((base[2][0], key, val))
         elif is_table(base):
             fresh = any(c == ("cmp", "In", key, base) and tv is False for c, tv in p.conds)
             if isinstance(val, tuple) and val and val[0] == "dict":
